@@ -359,3 +359,6 @@ def decide_inconclusive(obs, results, cases):
     if obs.get('requests', 0) == 0 or obs.get('failing_requests', 0) == 0 or obs.get('pipe_objects', 0) == 0 or obs.get('stream_items', 0) == 0:
         return 'no socket request / failing request / stream item / pipe object was observed'
     return None
+
+
+RULE = RULE + '; handlers raise 12 exception classes; /echo requests incl. surrogate-escaped strings and str/bytes subclasses; TCP transport; failing stream elements; tiny backlogs; late-reader pipe cases (known finding)'
